@@ -13,7 +13,10 @@ import (
 	"net/url"
 	"os"
 	"sort"
+	"runtime"
 	"strings"
+	"sync"
+	"sync/atomic"
 	"time"
 	"unicode/utf8"
 
@@ -98,6 +101,45 @@ type caseIn struct {
 	URL  []urlEnt  `json:"url,omitempty"`
 	Bin  bstr      `json:"bin,omitempty"`
 	Dial *jDial    `json:"dial,omitempty"`
+	// Group > 0: the set was marshalled as one of Group sets whose results were all RETAINED and
+	// only looked at after the last Marshal (replaying it alone marshals just this one)
+	Group int `json:"retained_group,omitempty"`
+	pre   *marshalled
+}
+
+// marshalled holds what the four writers returned for one set - the very values, no copies.
+type marshalled struct {
+	kvm  map[string]string
+	wsv  url.Values
+	wtv  url.Values
+	bin  []byte
+	merr int // which Marshal call returned an error: bit 1 kv, 2 websocket URL, 4 webtransport URL, 8 quic
+}
+
+func marshalAll(p *jP) *marshalled {
+	m := &marshalled{}
+	var err error
+	rp := p.real()
+	if m.kvm, err = rp.MarshalKeyValues(); err != nil {
+		m.merr |= 1
+		m.kvm = nil
+	}
+	ws := tws.NegotiationParams{NegotiationParams: p.real()}
+	if m.wsv, err = ws.MarshalURLValues(); err != nil {
+		m.merr |= 2
+		m.wsv = nil
+	}
+	wt := twt.NegotiationParams{NegotiationParams: p.real()}
+	if m.wtv, err = wt.MarshalURLValues(); err != nil {
+		m.merr |= 4
+		m.wtv = nil
+	}
+	q := tquic.NegotiationParams{NegotiationParams: p.real()}
+	if m.bin, err = q.Marshal(); err != nil {
+		m.merr |= 8
+		m.bin = nil
+	}
+	return m
 }
 
 func ip(v int) *int { return &v }
@@ -345,33 +387,24 @@ func runCase(ci *caseIn) (term string, observed interface{}, nontrivial bool, si
 			vld = fromReal(&vc)
 		}
 		// a Marshal error is an observation (MarshalKeyValues - and with it every writer - for text
-		// that is not UTF-8; the quic writer also for a key or value over 65535 bytes): bit 1 kv, 2 websocket URL, 4 webtransport URL, 8 quic
-		merr := 0
-		rp := p.real()
-		kvm, err := rp.MarshalKeyValues()
-		if err != nil {
-			merr |= 1
-			kvm = nil
+		// that is not UTF-8; the quic writer also for a key or value over 65535 bytes).
+		// The results are used as the writers returned them (possibly long ago: retained group)
+		mr := ci.pre
+		if mr == nil {
+			mr = marshalAll(p)
+			if ci.Group > 0 {
+				// replay of a member of a retained group: the other members are marshalled (and
+				// kept) after this one, before its results are looked at
+				var keep []*marshalled
+				gr := rng.New(uint64(ci.Group))
+				for i := 0; i < ci.Group; i++ {
+					keep = append(keep, marshalAll(distinctParams(gr, fmt.Sprintf("transport-%04d", i))))
+				}
+				runtime.KeepAlive(keep)
+			}
 		}
+		merr, kvm, wsv, wtv, bin := mr.merr, mr.kvm, mr.wsv, mr.wtv, mr.bin
 		kv := sortedPairs(kvm)
-		ws := tws.NegotiationParams{NegotiationParams: p.real()}
-		wsv, err := ws.MarshalURLValues()
-		if err != nil {
-			merr |= 2
-			wsv = nil
-		}
-		wt := twt.NegotiationParams{NegotiationParams: p.real()}
-		wtv, err := wt.MarshalURLValues()
-		if err != nil {
-			merr |= 4
-			wtv = nil
-		}
-		q := tquic.NegotiationParams{NegotiationParams: p.real()}
-		bin, err := q.Marshal()
-		if err != nil {
-			merr |= 8
-			bin = nil
-		}
 		var rtKV, rtWS, rtWT, rtBin *jP
 		if merr&1 == 0 {
 			rtKV = unmarshalKV(zeroP, kvm)
@@ -417,6 +450,22 @@ func runCase(ci *caseIn) (term string, observed interface{}, nontrivial bool, si
 			"roundtrip_same": []bool{same(rtKV), same(rtWS), same(rtWT), same(rtBin), same(rtPerm)},
 			"cfg1": jc(c1), "cfg2": jc(c2)}
 		nontrivial = len(kv) >= 2 || verr != nil
+		if ci.Group > 0 {
+			observed.(map[string]interface{})["retained_group"] = ci.Group
+		}
+		// hostile-but-legal caller: what Marshal returned is the caller's - it is overwritten now
+		for i := range bin {
+			bin[i] = 0xA5
+		}
+		for k := range kvm {
+			kvm[k] = "\xa5"
+		}
+		for k := range wsv {
+			wsv[k] = []string{"\xa5", "\xa5"}
+		}
+		for k := range wtv {
+			wtv[k] = []string{"\xa5", "\xa5"}
+		}
 	case "kv":
 		m := map[string]string{}
 		var ps []pair
@@ -547,6 +596,80 @@ func gridCase(r *rng.R, e, c string, lv, bt *int, rc bool, g group) *caseIn {
 	p := &jP{Enc: bstr(e), Comp: bstr(c), Level: lv, Bits: bt, Tid: bstr(g.tid), Reconnect: rc, Tgid: bstr(g.tgid), Tgcount: g.cnt, Tgidx: g.idx}
 	b1, b2 := bases(r)
 	return &caseIn{T: "params", P: p, B1: b1, B2: b2, Perm: r.Perm(countPairs(p))}
+}
+
+// distinctParams: a valid set that names everything, with the given (distinct) transport id and
+// fields of varying length.
+func distinctParams(r *rng.R, tid string) *jP {
+	p := &jP{Enc: bstr(encs[1+r.Intn(2)]), Comp: bstr(comps[1+r.Intn(2)]), Level: ip(r.Intn(10)), Bits: ip(r.Intn(33)),
+		Tid: bstr(tid), Reconnect: r.Bool()}
+	if r.Bool() {
+		p.Tgid = bstr("group-" + strings.Repeat("x", r.Intn(12)))
+		p.Tgcount = 1 + r.Intn(9)
+		p.Tgidx = r.Intn(9)
+	}
+	if r.Chance(1, 4) {
+		p.Tid = bstr(tid + strings.Repeat("-pad", r.Intn(40)))
+	}
+	return p
+}
+
+// concurrentRoundTrips: each goroutine marshals its own sets on every carrier, yields, and then
+// decodes ITS OWN results.  Returns the first anomaly as a params case whose observations are the
+// values as they were when the anomaly was seen.
+func concurrentRoundTrips(r *rng.R, workers, iters int) (*caseIn, int) {
+	var once sync.Once
+	var anomaly *caseIn
+	var wg sync.WaitGroup
+	var stop int32
+	seeds := make([]uint64, workers)
+	for i := range seeds {
+		seeds[i] = r.U64()
+	}
+	b1, b2 := bases(r)
+	for g := 0; g < workers; g++ {
+		wg.Add(1)
+		go func(g int) {
+			defer wg.Done()
+			defer func() {
+				if rec := recover(); rec != nil {
+					once.Do(func() {
+						anomaly = &caseIn{T: "params", P: distinctParams(rng.New(1), "panic"), B1: b1, B2: b2,
+							pre: &marshalled{merr: 15}}
+						fmt.Fprintf(os.Stderr, "panic in concurrent round trip: %v\n", rec)
+					})
+				}
+			}()
+			cr := rng.New(seeds[g])
+			l := &lits{}
+			for i := 0; i < iters && atomic.LoadInt32(&stop) == 0; i++ {
+				p := distinctParams(cr, fmt.Sprintf("w%d-%06d", g, i))
+				m := marshalAll(p)
+				runtime.Gosched()
+				want := l.P(p)
+				okAll := m.merr == 0
+				if okAll {
+					rb := unmarshalBin(m.bin)
+					rk := unmarshalKV(zeroP, m.kvm)
+					rw := unmarshalWS(zeroP, m.wsv)
+					rt := unmarshalWT(zeroP, m.wtv)
+					okAll = rb != nil && rk != nil && rw != nil && rt != nil &&
+						l.P(rb) == want && l.P(rk) == want && l.P(rw) == want && l.P(rt) == want
+				}
+				if !okAll {
+					once.Do(func() {
+						atomic.StoreInt32(&stop, 1)
+						cp := *m
+						cp.bin = append([]byte(nil), m.bin...)
+						anomaly = &caseIn{T: "params", P: p, B1: b1, B2: b2, pre: &cp}
+					})
+					return
+				}
+			}
+		}(g)
+	}
+	wg.Wait()
+	return anomaly, workers * iters
 }
 
 func countPairs(p *jP) int {
@@ -889,6 +1012,46 @@ func main() {
 		b1, b2 := bases(cr)
 		add(&caseIn{T: "params", P: p, B1: b1, B2: b2, Perm: cr.Perm(countPairs(p))}, "random-params")
 	}
+	// 2b. RETAINED results: 32-64 different sets are marshalled by every writer, every result is
+	//     kept as returned, and only after the last Marshal each one is decoded and compared
+	//     (a writer must not hand out memory it reuses for a later call)
+	ngroups := 3
+	if thorough {
+		ngroups = 40
+	}
+	for g := 0; g < ngroups; g++ {
+		cr := r.Fork()
+		n := 32 + cr.Intn(33)
+		var cis []*caseIn
+		for i := 0; i < n; i++ {
+			p := distinctParams(cr, fmt.Sprintf("transport-%04d", i))
+			if cr.Chance(1, 6) {
+				p = randParams(cr)
+			}
+			b1, b2 := bases(cr)
+			cis = append(cis, &caseIn{T: "params", P: p, B1: b1, B2: b2, Perm: cr.Perm(countPairs(p)), Group: n})
+		}
+		for _, ci := range cis {
+			ci.pre = marshalAll(ci.P)
+		}
+		for _, ci := range cis {
+			add(ci, "retained-params")
+		}
+	}
+	// 2c. CONCURRENT round trips: 8 goroutines, each marshalling its own sets and decoding its own
+	//     result after yielding; judged here, the first anomaly becomes a case for the Coq judge
+	{
+		iters := 2000
+		if thorough {
+			iters = 20000
+		}
+		anomaly, total := concurrentRoundTrips(r.Fork(), 8, iters)
+		w.Count(fmt.Sprintf("concurrent-roundtrips:%d", total))
+		if anomaly != nil {
+			w.Count("concurrent-roundtrip-anomalies:>=1")
+			add(anomaly, "concurrent-roundtrip-anomaly")
+		}
+	}
 	// 3. dial configurations
 	for _, dct := range []bool{false, true} {
 		for _, en := range []bool{false, true} {
@@ -959,6 +1122,60 @@ func main() {
 		}
 		add(&caseIn{T: "url", URL: ents}, "url-values")
 	}
+	// 5b. a key repeated 2-3 times with byte-identical values (must be rejected like any other
+	//     multi-valued key): every known key and some unknown ones, alone and inside an otherwise
+	//     valid set
+	{
+		valFor := map[string]string{"enc": "json", "comp": "per-message", "clevel": "6", "cwinbits": "15", "tid": "t-1",
+			"reconnect": "true", "tgid": "g", "tgcount": "3", "tgidx": "2", "foo": "bar", "x-unknown": "", "ENC": "json"}
+		keys := append(append([]string{}, nameKeys...), "foo", "x-unknown", "ENC")
+		for _, k := range keys {
+			for _, n := range []int{2, 3} {
+				cr := r.Fork()
+				var vals []bstr
+				for j := 0; j < n; j++ {
+					vals = append(vals, bstr(valFor[k]))
+				}
+				add(&caseIn{T: "url", URL: []urlEnt{{K: bstr(k), V: vals}}}, "url-identical-repeat")
+				// inside an otherwise valid set
+				ents := []urlEnt{{K: bstr(k), V: vals}}
+				for _, k2 := range nameKeys {
+					if k2 != k && cr.Chance(2, 3) {
+						ents = append(ents, urlEnt{K: bstr(k2), V: []bstr{bstr(valFor[k2])}})
+					}
+				}
+				pm := cr.Perm(len(ents))
+				sh := make([]urlEnt, len(ents))
+				for i, j := range pm {
+					sh[i] = ents[j]
+				}
+				add(&caseIn{T: "url", URL: sh}, "url-identical-repeat-in-valid-set")
+			}
+		}
+		nrep := 40
+		if thorough {
+			nrep = 400
+		}
+		for i := 0; i < nrep; i++ {
+			cr := r.Fork()
+			kv := randKV(cr)
+			if len(kv) == 0 {
+				continue
+			}
+			var ents []urlEnt
+			rep := cr.Intn(len(kv))
+			for j, e := range kv {
+				vals := []bstr{e[1]}
+				if j == rep {
+					for x := 0; x < 1+cr.Intn(2); x++ {
+						vals = append(vals, e[1])
+					}
+				}
+				ents = append(ents, urlEnt{K: e[0], V: vals})
+			}
+			add(&caseIn{T: "url", URL: ents}, "url-identical-repeat-random")
+		}
+	}
 	// 6. binary reader: mutated framings, random bytes, exhaustive short strings
 	nbin := 500
 	if thorough {
@@ -1005,7 +1222,7 @@ func main() {
 	} else {
 		gridDesc += " (full product), reconnect and group fields drawn per point"
 	}
-	rule := "grid: " + gridDesc + ", each set through Validate, MarshalKeyValues, both URL carriers (Encode/ParseQuery), quic Marshal/Unmarshal, a harness-permuted framing, CompressConfig on two different bases; random sets with awkward text (quotes, control, HTML, U+2028, invalid UTF-8) and extreme ints; dial configs; arbitrary key/value maps (all spellings of numbers/booleans/keys in the tables) through the kv and URL readers; URL values with 0/1/2 values; binary reader on framed maps, 9 mutations, random bytes, every string over {00,01,'a',ff} up to length " + fmt.Sprint(maxLen) + ". non-trivial = params: >=2 pairs emitted or set invalid; kv/url: non-empty; bin: >=5 bytes; distinct = distinct Coq case terms"
+	rule := "grid: " + gridDesc + ", each set through Validate, MarshalKeyValues, both URL carriers (Encode/ParseQuery), quic Marshal/Unmarshal, a harness-permuted framing, CompressConfig on two different bases; retained groups (32-64 sets marshalled by all four writers, every result kept and decoded only after the last Marshal); 8 goroutines x 2000 concurrent marshal/yield/decode round trips judged in the harness (first anomaly becomes a case); in every params case the values the writers returned are overwritten after use; random sets with awkward text (quotes, control, HTML, U+2028, invalid UTF-8) and extreme ints; dial configs; arbitrary key/value maps (all spellings of numbers/booleans/keys in the tables) through the kv and URL readers; URL values with 0/1/2 values, and every known key / unknown keys repeated 2-3 times with identical values (alone, inside a valid set, inside random maps); binary reader on framed maps, 9 mutations, random bytes, every string over {00,01,'a',ff} up to length " + fmt.Sprint(maxLen) + ". non-trivial = params: >=2 pairs emitted or set invalid; kv/url: non-empty; bin: >=5 bytes; distinct = distinct Coq case terms"
 	if err := w.Flush(*seed, *tier, rule, true, nil); err != nil {
 		fmt.Fprintln(os.Stderr, err)
 		os.Exit(2)
